@@ -134,7 +134,7 @@ def run(ctx):
     rng = ctx.rng
     install(ctx)
     thorough = ctx.tier == "thorough"
-    n_terms = 130 if not thorough else 4000
+    n_terms = 1500 if not thorough else 20000
     for t in range(n_terms):
         term = K.gen_top(rng)
         comb = K.build(term)  # ONE combinator object per term, reused for boards of different sizes (as the puzzle modules do)
